@@ -250,6 +250,10 @@ pub fn drive(a: &Args) -> i32 {
                     replies.push(json!({"x":names.id(&f.from),"r":names.id(&f.to),"known":known,"nodes":nodes}));
                 }
                 let rank = names.ranks(&key);
+                // what the origin is connected to (hub view): its local knowledge must be exactly these peers
+                let neigh_ids: Vec<usize> = neigh0.iter().map(|x| names.id(x)).collect();
+                let rank = if rank.len() < names.list.len() { names.ranks(&key) } else { rank };
+                events.push(json!({"ev":"Local","self":me,"neigh":neigh_ids,"initial":initial_ids,"rank":rank}));
                 events.push(json!({"ev":"Lookup","self":me,"k":count,"rank":rank,"initial":initial_ids,"reqs":reqs,"result":result_ids,
                                    "unreachable":unreachable.iter().map(|x| names.id(x)).collect::<Vec<_>>(),
                                    "hang":hang,"err":err.unwrap_or_default(),"pure":pure,"honest":honest,"nids":names.list.len()}));
